@@ -531,9 +531,7 @@ impl<'a> InputOutputHelper<'a> {
                      "{}: replacing with normalized version", self.input_path.display());
 
                 if !self.check {
-                    output.set_permissions(meta.permissions())?;
-                    output.set_modified(meta.modified()?)?;
-
+                    // Change ownership first: chown clears the set-user-ID and set-group-ID bits.
                     if let Err(e) = unix_fs::lchown(output_path, Some(meta.st_uid()), Some(meta.st_gid())) {
                         if e.kind() == io::ErrorKind::PermissionDenied {
                             warn!("{}: cannot change file ownership, ignoring", self.input_path.display());
@@ -541,6 +539,9 @@ impl<'a> InputOutputHelper<'a> {
                             bail!("{}: cannot change file ownership: {}", self.input_path.display(), e);
                         }
                     }
+
+                    output.set_permissions(meta.permissions())?;
+                    output.set_modified(meta.modified()?)?;
 
                     fs::rename(output_path, self.input_path)?;
                     self.output_path = None; /* The path is now invalid */
